@@ -166,16 +166,16 @@ Proof. intro H. exists 0. intros; exact H. Qed.
 Lemma ev_shift P : ev P -> ev (fun n => match n with O => false | Datatypes.S k => P k end).
 Proof. intros [a Ha]. exists (Datatypes.S a). intros [|k] Hn; [lia | apply Ha; lia]. Qed.
 
-Lemma wrapP_conf leafp eo S frs scs : forall t j,
-  wrapP (fun j' => j' <> JNull /\ ev (fun fc => conf_val_gen leafp eo fc S frs (TNamed (base_name t)) scs j')) t j ->
-  ev (fun fc => conf_val_gen leafp eo fc S frs t scs j).
+Lemma wrapP_conf leafp eo so S frs scs : forall t j,
+  wrapP (fun j' => j' <> JNull /\ ev (fun fc => conf_val_gen leafp eo so fc S frs (TNamed (base_name t)) scs j')) t j ->
+  ev (fun fc => conf_val_gen leafp eo so fc S frs t scs j).
 Proof.
   induction t as [n | t IH | t IH]; intros j H; simpl in H.
   - destruct H as [E | [_ H]]; [| exact H]. subst. exists 1. intros [|k] Hk; [lia | reflexivity].
   - destruct H as [E | [l [E Hf]]].
     + subst. exists 1. intros [|k] Hk; [lia | reflexivity].
     + subst. rewrite Forall_forall in Hf.
-      assert (He : ev (fun k => forallb (conf_val_gen leafp eo k S frs t scs) l)).
+      assert (He : ev (fun k => forallb (conf_val_gen leafp eo so k S frs t scs) l)).
       { apply ev_forallb. intros x Hx. apply IH, Hf, Hx. }
       apply ev_shift in He. destruct He as [a Ha]. exists a. intros [|k] Hk; [specialize (Ha 0 Hk); discriminate|].
       specialize (Ha _ Hk). exact Ha.
@@ -186,7 +186,7 @@ Qed.
 
 (* ------------------------------------------------------------------------------------------- *)
 (* lax conformance: conf_val with pydantic's lax leaf table, extra keys still forbidden          *)
-Definition lconf (fc : nat) (S : schema) (frs : list fragdef) := conf_val_gen lax_leaf false fc S frs.
+Definition lconf (fc : nat) (S : schema) (frs : list fragdef) := conf_val_gen lax_leaf false true fc S frs.
 Definition obj_lconf (fc : nat) (S : schema) (frs : list fragdef) (tn : string) (sels : list sel)
            (kv : list (string * json)) : bool :=
   conf_obj_gen false (lconf fc S frs) S tn (collect_scopes fc S frs tn [(false, sels)]) kv.
@@ -379,7 +379,7 @@ Section LevelS.
           eapply table_ok_incl; eauto. }
         apply ev_shift in He. destruct He as [a Ha]. exists a. intros [|k] Hk; [specialize (Ha 0 Hk); discriminate|].
         specialize (Ha _ Hk). cbn [conf_val_gen]. rewrite El. apply existsb_exists. exists t0.
-        split; [rewrite Hposs; exact Ht0|].
+        split; [unfold abs_candidates; rewrite El; cbn [app]; rewrite Hposs; exact Ht0|].
         unfold sub_scopes. simpl. rewrite Esub. simpl. rewrite andb_false_r. exact Ha.
   Qed.
 
@@ -574,7 +574,7 @@ Theorem op_strict C S frs fuel kind name sels root own pub' cls g gs j n :
   no_basemodel own = true ->
   accepts n cls (schema_enums S) (AClass (pascal_s name)) j = true ->
   covers n cls (AClass (pascal_s name)) j = true ->
-  ev (fun fc => conf_op_gen lax_leaf false fc S frs root sels j).
+  ev (fun fc => conf_op_gen lax_leaf false true fc S frs root sels j).
 Proof.
   intros Hroot Hop Hall Hok Hst Hnb Hacc Hcov.
   pose proof (op_table _ _ _ _ _ _ _ _ _ _ Hop Hall Hnb) as Htab.
@@ -596,7 +596,7 @@ Corollary op_strict_rejects C S frs fuel kind name sels root own pub' cls g gs j
   all_classes fuel C S frs (DOp kind name [] sels) = Ok cls ->
   op_ok g true C S frs root sels = true -> sels_strict gs C S frs false root sels = true ->
   no_basemodel own = true ->
-  (forall fc, conf_op_gen lax_leaf false fc S frs root sels j = false) ->
+  (forall fc, conf_op_gen lax_leaf false true fc S frs root sels j = false) ->
   covers n cls (AClass (pascal_s name)) j = true ->
   accepts n cls (schema_enums S) (AClass (pascal_s name)) j = false.
 Proof.
@@ -635,24 +635,28 @@ Proof.
 Qed.
 
 (* every conformant response is lax-conformant *)
-Lemma conf_val_gen_leaf_mono leafp1 leafp2 eo S frs :
+Lemma abs_candidates_incl so S n : incl (possible_types S n) (abs_candidates so S n).
+Proof. unfold abs_candidates. destruct so; [apply incl_appr|]; apply incl_refl. Qed.
+
+Lemma conf_val_gen_leaf_mono leafp1 leafp2 eo so S frs :
   (forall n d j, leafp1 S n d j = true -> leafp2 S n d j = true) ->
-  forall fuel t scs j, conf_val_gen leafp1 eo fuel S frs t scs j = true ->
-                       conf_val_gen leafp2 eo fuel S frs t scs j = true.
+  forall fuel t scs j, conf_val_gen leafp1 eo false fuel S frs t scs j = true ->
+                       conf_val_gen leafp2 eo so fuel S frs t scs j = true.
 Proof.
   intro Hl. induction fuel as [|fuel IH]; intros t scs j H; [discriminate H|].
   cbn [conf_val_gen] in *. destruct t as [n | t' | t'].
   - destruct j; try exact H;
       (destruct (lookup_type S n) as [[| vs | ifs fs | ifs fs | ms |]|]; try exact H; try (apply Hl; exact H));
       try (eapply conf_obj_gen_mono; [| exact H]; exact IH);
-      try (rewrite existsb_exists in *; destruct H as [rt [Hr1 Hr2]]; exists rt; split; [exact Hr1|];
+      try (rewrite existsb_exists in *; destruct H as [rt [Hr1 Hr2]]; exists rt;
+           split; [apply abs_candidates_incl; exact Hr1|];
            eapply conf_obj_gen_mono; [| exact Hr2]; exact IH).
   - destruct j; try exact H. rewrite forallb_forall in *. intros x Hx. apply IH, H, Hx.
   - destruct j; try exact H; apply IH, H.
 Qed.
 
 Corollary conf_op_lax fc S frs root sels j :
-  conf_op fc S frs root sels j = true -> conf_op_gen lax_leaf false fc S frs root sels j = true.
+  conf_op fc S frs root sels j = true -> conf_op_gen lax_leaf false true fc S frs root sels j = true.
 Proof.
   unfold conf_op, conf_op_gen. destruct j; auto;
     apply conf_val_gen_leaf_mono; intros; apply lax_leaf_weaker; assumption.
